@@ -248,6 +248,7 @@ class Interp:
         self._carried: dict = {}
         self._counters: dict = {}
         self._carried_containers: dict = {}
+        self.unroll_while = 0  # > 0: while loops are executed iteration by iteration, at most this many times
         self.path_count = 0
         self.stats = {"paths": 0, "functions": set(), "unresolved_calls": 0, "resolved_calls": 0, "loops": 0}
 
@@ -977,6 +978,8 @@ class Interp:
                     ds = [desc(x) for x in o.values()]
                     if desc(item) in ds:
                         return PTRUE
+                    if not ds:
+                        return PFALSE  # nothing is a member of an empty collection
                     if isinstance(item, Const) and all(isinstance(x, Const) for x in o.values()):
                         return PFALSE
                 coll = self.as_coll(container)
@@ -2173,6 +2176,30 @@ class Interp:
         from .merge import havoc_loop_head
 
         loop_id = self.state.fresh("loop")
+        if self.unroll_while:
+            # bounded concrete unrolling (rules that evaluate a loop against a model of what it calls): iteration by iteration
+            # from the actual state; a path that is still in the loop after the bound ends there as ("unroll-limit", ...)
+            self.log("while.enter", node, id=loop_id, entry=None, oid_mark=self.state.counters.get("oid", 0))
+            done = 0
+            while True:
+                if done >= self.unroll_while:
+                    raise PathEnd(("unroll-limit", loop_id, done))
+                if not (isinstance(node.test, ast.Constant) and bool(node.test.value)):
+                    if not self.truth(self.eval(node.test)):
+                        break
+                self.log("while.iteration", node, id=loop_id, n=done, oid_mark=self.state.counters.get("oid", 0))
+                try:
+                    self.exec_block(node.body)
+                except BreakSig:
+                    self.log("while.break", node, id=loop_id)
+                    return
+                except ContinueSig:
+                    pass
+                done += 1
+            self.log("while.exit", node, id=loop_id)
+            if node.orelse:
+                self.exec_block(node.orelse)
+            return
         entry = havoc_loop_head(self, node, loop_id)
         self.log("while.enter", node, id=loop_id, entry=entry, oid_mark=self.state.counters.get("oid", 0))
         try:
